@@ -149,6 +149,19 @@ impl ThirdPartyBlock {
     pub fn serialize_base64(&self) -> Result<String, error::Token> {
         Ok(base64::encode_config(self.serialize()?, base64::URL_SAFE))
     }
+
+    /// simulation seam: a third-party block as received from the wire
+    #[cfg(biscuit_auth_verif)]
+    pub fn verif_from_bytes(slice: &[u8]) -> Result<Self, error::Token> {
+        schema::ThirdPartyBlockContents::decode(slice)
+            .map(ThirdPartyBlock)
+            .map_err(|e| {
+                error::Token::Format(error::Format::DeserializationError(format!(
+                    "deserialization error: {:?}",
+                    e
+                )))
+            })
+    }
 }
 
 #[cfg(test)]
